@@ -569,7 +569,7 @@ func runCutCase(c cutCase) (viol []string, sig string) {
 		case "stop-inside":
 			go e.plugins[p].Stub.Stop()
 			time.Sleep(5 * time.Millisecond)
-		case "hang":
+		case "hang", "hang-retimed":
 			<-release
 		case "late-answer":
 			// answers only when told to (after the gate in the multiplexer readers is armed)
@@ -583,7 +583,15 @@ func runCutCase(c cutCase) (viol []string, sig string) {
 		}
 	}
 	var err error
+	if c.Fault == "hang-retimed" {
+		// the plugins register while a long request timeout is configured; the timeout in force when the
+		// request is made is the short one
+		adaptation.SetPluginRequestTimeout(20 * time.Second)
+	}
 	e, err = newCutEnv(c, inside)
+	if c.Fault == "hang-retimed" {
+		adaptation.SetPluginRequestTimeout(reqTimeout)
+	}
 	if err != nil {
 		return []string{"machinery: " + err.Error()}, "C07|machinery"
 	}
@@ -873,7 +881,7 @@ func engineCuts(f *rep.Flags, res *rep.Result) {
 				for k := int64(0); k < rs; k++ {
 					cases = append(cases, cutCase{Call: cn, N: n, Victim: v, Fault: "rt-cut-read", Offset: k})
 				}
-				for _, ft := range []string{"stop-before", "stop-inside", "stop-after", "hang", "hang-updating", "handler-error", "flood", "late-answer"} {
+				for _, ft := range []string{"stop-before", "stop-inside", "stop-after", "hang", "hang-updating", "handler-error", "flood", "late-answer", "hang-retimed"} {
 					cases = append(cases, cutCase{Call: cn, N: n, Victim: v, Fault: ft})
 				}
 				for _, k := range []int64{0, rq / 2, rq - 1} {
@@ -953,8 +961,8 @@ func engineCuts(f *rep.Flags, res *rep.Result) {
 	var sequential []cutCase
 	for i, c := range cases {
 		if i%f.NShards == f.Shard {
-			if c.Fault == "late-answer" {
-				sequential = append(sequential, c) // the gate in the multiplexer readers is process-wide
+			if c.Fault == "late-answer" || c.Fault == "hang-retimed" {
+				sequential = append(sequential, c) // the gate in the multiplexer readers and the timeouts are process-wide
 				continue
 			}
 			jobs <- c
